@@ -244,3 +244,103 @@ def _ob(name, ok, backend, note=""):
     if not ok:
         d.update(inputs=None, model=note, reason="")
     return d
+
+
+# ---------------------------------------------------------------------------
+# value(): bounded stand-in -- the REAL value/action/intrv/bsplvn/uniq chain on symbolic reals
+# ---------------------------------------------------------------------------
+def _cdb_local(t, x, k, j):
+    """textbook Cox-de Boor values [B_{j-k+1,k}(x), ..., B_{j,k}(x)] for x in [t_j, t_{j+1}] (dual: floats or SReal)"""
+    B = {j: 1}
+    for lev in range(1, k):
+        nB = {}
+        for i in range(j - lev, j + 1):
+            term = 0
+            if i in B:
+                term = term + (x - t[i]) / (t[i + lev] - t[i]) * B[i]
+            if i + 1 in B:
+                term = term + (t[i + lev + 1] - x) / (t[i + lev + 1] - t[i + 1]) * B[i + 1]
+            nB[i] = term
+        B = nB
+    return [B[i] for i in range(j - k + 1, j + 1)]
+
+
+@register("C08")
+class ValueBounded(FunctionContract):
+    name = "value_bounded"
+    target = "pydl.pydlutils.bspline:bspline.value"
+    level = "B"
+    bound = "nord 1..3, 1-2 intervals (2*nord+1 .. 2*nord+2 knots), 1..3 evaluation points in any order; all real values of knots (strictly increasing), coefficients and points"
+    assumptions = ["A1 floats as reals", "knots strictly increasing, no masked breakpoint", "numpy object-array semantics = float-array semantics for slicing/dot/argsort"]
+    max_paths = 20000
+
+    def cases(self, tier):
+        out = []
+        for nord in (1, 2, 3):
+            for extra in ((1,) if tier == "quick" else (1, 2)):
+                for nx in ((1, 2) if (tier == "quick" and nord == 3) else (1, 2, 3)):
+                    out.append((nord, extra, nx))
+        return out
+
+    def inputs(self):
+        nord, extra, nx = self.case
+        m = 2 * nord + extra
+        t = np.empty((m,), dtype=object)
+        for i in range(m):
+            t[i] = sym_real("t%d" % i)
+        c = np.empty((m - nord,), dtype=object)
+        for i in range(m - nord):
+            c[i] = sym_real("c%d" % i)
+        x = np.empty((nx,), dtype=object)
+        for i in range(nx):
+            x[i] = sym_real("x%d" % i)
+        return dict(t=t, c=c, x=x, nord=nord)
+
+    def requires(self, t, c, x, nord):
+        return S.AND(*[t[i] < t[i + 1] for i in range(len(t) - 1)])
+
+    def call(self, fn, t, c, x, nord):
+        from pydl.pydlutils.bspline import bspline
+        b = bspline.__new__(bspline)
+        b.breakpoints, b.nord, b.npoly = t, nord, 1
+        b.mask = np.ones((len(t),), dtype=bool)
+        b.coeff = c
+        b.xmin, b.xmax, b.funcname = 0.0, 1.0, "legendre"
+        self._x0 = x.copy()
+        if fn.__name__ == "value" and getattr(fn, "__self__", None) is None and fn.__code__.co_varnames[0] == "self":
+            return fn(b, x)
+        return b.value(x)
+
+    def native_fn(self):
+        from pydl.pydlutils.bspline import bspline
+        return bspline.value
+
+    def ensures(self, result, t, c, x, nord):
+        yy, mask = result
+        m = len(t)
+        n = m - nord
+        out = {"shapes": (tuple(np.shape(yy)) == tuple(np.shape(x))) and (tuple(np.shape(mask)) == tuple(np.shape(x)))}
+        for i in range(len(x)):
+            xi = x[i]
+            outside = S.OR(xi < t[nord - 1], xi > t[n])
+            out["mask_false_exactly_outside[%d]" % i] = S.iff(S.NOT(bool(mask[i]) if not S.is_sym(mask[i]) else mask[i]), outside)
+            alts = []
+            for j in range(nord - 1, n):
+                Bs = _cdb_local(t, xi, nord, j)
+                val = 0
+                for l in range(nord):
+                    val = val + Bs[l] * c[j - nord + 1 + l]
+                alts.append(S.AND(t[j] <= xi, xi <= t[j + 1], S.eq(yy[i], val)))
+            out["value_is_the_spline_in_caller_order[%d]" % i] = S.implies(S.NOT(outside), S.OR(*alts))
+        out["input_unmodified"] = all(a is b_ for a, b_ in zip(x, self._x0)) if x.dtype == object else bool(np.array_equal(x, self._x0))
+        return out
+
+    def samples(self, rng):
+        for _ in range(150):
+            nord = rng.randint(1, 4)
+            m = 2 * nord + rng.randint(1, 4)
+            t = np.cumsum(np.array([rng.uniform(0.3, 1.5) for _ in range(m)]))
+            c = np.array([rng.uniform(-2, 2) for _ in range(m - nord)])
+            nx = rng.randint(1, 6)
+            x = np.array([rng.uniform(t[0] - 0.5, t[-1] + 0.5) for _ in range(nx)])
+            yield dict(t=t, c=c, x=x, nord=nord)
